@@ -478,7 +478,7 @@ func (f *DefaultFanController) calculateTargetPwm() (int, error) {
 		lastSetTargetEqualsNewTarget := f.lastSetPwm != nil && *f.lastSetPwm == target
 		if shouldNeverStop && lastSetTargetEqualsNewTarget {
 			avgRpm := fan.GetRpmAvg()
-			if avgRpm <= 0 {
+			if avgRpm < 1 {
 				if target >= maxPwm {
 					ui.Error("CRITICAL: Fan %s avg. RPM is %d, even at PWM value %d", fan.GetId(), int(avgRpm), target)
 					return -1, ErrFanStalledAtMaxPwm
